@@ -2,6 +2,7 @@
 package main
 
 import (
+	"bytes"
 	"encoding/binary"
 	"fmt"
 	"regexp"
@@ -192,6 +193,12 @@ func headerBlockEnds(req []byte) int {
 	return n
 }
 
+// announcesBody: the bytes mention a body framing header anywhere (deliberately coarse).
+func announcesBody(req []byte) bool {
+	low := bytes.ToLower(req)
+	return bytes.Contains(low, []byte("content-length")) || bytes.Contains(low, []byte("transfer-encoding"))
+}
+
 func finals(rs []Resp) (n int, first *Resp) {
 	for i := range rs {
 		if !rs[i].Interim {
@@ -303,8 +310,14 @@ func (w *worker) judgeCommon(req []byte, res *result, desc func() map[string]any
 	case nf > ends+1:
 		l.Violate(fmt.Sprintf("response-count fam=%s more-responses-than-requests", o.fam),
 			"the server wrote more final responses than the byte stream can hold requests", desc(), map[string]any{"responses": nf, "written": clipOut(res.out)}, map[string]any{"max": ends + 1})
+	case nf == 0 && ends > 0 && len(firstToken(req)) > 0 && announcesBody(req):
+		// The head announces a body; the bytes after it may be an unfinished body followed by
+		// EOF, i.e. a client that went away mid-request: answering nothing is then legitimate
+		// (fasthttp treats EOF at a chunk boundary that way). Unspecified.
+		l.Add("unspecified_skipped", 1)
+		l.Add("no_response_to_request_with_body_framing", 1)
 	case nf == 0 && ends > 0 && len(firstToken(req)) > 0:
-		// a complete header block was received and nothing was answered
+		// a complete body-less request head was received and nothing was answered
 		l.Violate(fmt.Sprintf("response-count fam=%s no-response", o.fam),
 			"a complete request head was sent and the server answered nothing", desc(), clipOut(res.out), ">=1 response")
 	}
